@@ -1,4 +1,4 @@
-mod util; mod skel; mod parsers; mod corpus; mod gen; mod pegcmp; mod report; mod api; mod c01; mod c16; mod c15; mod gen_pp; mod ppcmp;
+mod util; mod skel; mod parsers; mod corpus; mod gen; mod pegcmp; mod report; mod api; mod c01; mod c16; mod c15; mod gen_pp; mod ppcmp; mod c06; mod calls; mod c20; mod c07;
 
 fn main() {
     util::silence_panics();
@@ -10,6 +10,10 @@ fn main() {
         "c16" => c16::main(&args[1..]),
         "c15" => c15::main(&args[1..]),
         "ppcmp" => ppcmp::main(&args[1..]),
+        "c06" => c06::main(&args[1..]),
+        "c20" => c20::main(&args[1..]),
+        "c07" => c07::main_c07(&args[1..]),
+        "c19" => c07::main_c19(&args[1..]),
         "parse" => { let k = skel::Kinds::load(&args[1]); println!("{}", parsers::run(&args[2], Some(Some(1024)), &args[3], &k, true).line()); }
         x => { eprintln!("unknown command {}", x); std::process::exit(2); }
     }
